@@ -85,6 +85,7 @@ def run(tier, seed):
     # models passed through literally (no exploration on top): resources with unsorted / repeated absence lists
     lit = [(sp, {"rule": r, "max_time": 20}) for sp in F.unsorted_absence_specs() for r in ("TSLACK", "SPT")]
     col.merge(stepcheck.explore(lit, MONS, 0, 0, seed=seed))
+    col.merge(stepcheck.explore(stepcheck.edited_items(), MONS, 0, 0, seed=seed))  # runs after an earlier run and an in-place model edit
     meta = {
         "level": "model_checking",
         "rule": "(a) every 2x2 worker-task skill grid over {missing,0,1e-11,1}; (b) every team-targeting matrix of 2 teams x 2 tasks x solo flags; (c) all pairs of fixed "
